@@ -180,6 +180,25 @@ def gendep_specs() -> T.List[Spec]:
             spec.append(Node('G', 'deps', ((h, 'gdepends'),)))
             spec.append(Node(cons[0], cons[1], ((len(spec) - 1, 'src'),)))
             out.append(tuple(spec))
+    # the build-time product is an executable of this build: named directly, or as what find_program() returns for an overridden name
+    for rel in ('gdepends', 'gdepends_prog'):
+        for cons in (('E', 'plain'), ('L', 'static')):
+            out.append((Node('E', 'plain', ()), Node('G', 'deps', ((0, rel),)), Node(cons[0], cons[1], ((1, 'src'),))))
+    return out
+
+
+def allgen_specs() -> T.List[Spec]:
+    """Shapes to be rendered with '+own_ct' / '+own_gen': targets ALL of whose sources are generated - alone, with a generated
+    header as source or through declare_dependency(sources:), with a precompiled header, linking a library of the same kind."""
+    out: T.List[Spec] = []
+    for cons in (('E', 'plain'), ('L', 'static'), ('L', 'shared')):
+        out.append((Node(cons[0], cons[1], ()),))
+        for rel in ('src', 'dep', 'src_pch', 'dep_pch'):
+            out.append((Node('H', 'plain', ()), Node(cons[0], cons[1], ((0, rel),))))
+        out.append((Node('G', 'hdr', ()), Node(cons[0], cons[1], ((0, 'src_pch'),))))
+        out.append((Node('S', 'plain', ()), Node(cons[0], cons[1], ((0, 'src'),))))
+    out.append((Node('L', 'static', ()), Node('E', 'plain', ((0, 'link_with'),))))
+    out.append((Node('H', 'plain', ()), Node('L', 'shared', ((0, 'src_pch'),)), Node('E', 'plain', ((1, 'link_with'), (0, 'dep_pch')))))
     return out
 
 
@@ -231,6 +250,7 @@ def genct_specs() -> T.List[Spec]:
 def placement_ok(spec: Spec, placement: str) -> bool:
     """'sub' puts H/S/G/C/K into sub/ which is entered before the root targets: not possible when one of them
     consumes a root target (K <- X)."""
+    placement = placement.partition('+')[0]
     if placement != 'sub':
         return True
     return not any(n.kind == 'K' and spec[p].kind == 'X' for n in spec for p, _ in n.uses)
@@ -257,7 +277,9 @@ def describe(spec: Spec) -> str:
 def render(spec: Spec, placement: str = 'root', odd_names: bool = False, with_tests: bool = True,
            install: bool = False, project_name: str = 'gp') -> Rendered:
     """placement: 'root' (everything in the top meson.build) | 'sub' (producers that are not L/E/X live in sub/,
-    consumers in the root) | 'allsub' (everything in sub/)."""
+    consumers in the root) | 'allsub' (everything in sub/).  A suffix '+own_ct' / '+own_gen' makes the own C file of every library
+    and executable a generated one (custom target / generator() output), so that such a target has no source in the source tree."""
+    placement, _, own_src = placement.partition('+')
     files: T.Dict[str, str] = {}
     root: T.List[str] = ["project('%s', 'c', default_options: ['warning_level=0'])" % project_name, "cp = find_program('cp')", "sh = find_program('sh')"]
     sub: T.List[str] = []
@@ -410,8 +432,14 @@ def render(spec: Spec, placement: str = 'root', odd_names: bool = False, with_te
             files[d + me + '.in'] = gen_src_prelude(i) + 'int f%s(void) { return %d; }\n' % (me, value(i))
             files[d + me + '_b.in'] = 'int f%s_b(void) { return 1; }\n' % me
             files[d + me + '_c.in'] = 'int f%s_c(void) { return 2; }\n' % me
+            dep = ref(p)
+            if rel == 'gdepends_prog':
+                # the product is an executable of this build that find_program() hands out (meson.override_find_program)
+                out.append("meson.override_find_program('tool_%s', %s)" % (me, ref(p)))
+                out.append("prog_%s = find_program('tool_%s')" % (me, me))
+                dep = 'prog_%s' % me
             out.append("gend_%s = generator(sh, output: '@BASENAME@.c', arguments: ['-c', 'cat \"$2\" > /dev/null && cp \"$0\" \"$1\"', "
-                       "'@INPUT@', '@OUTPUT@', %s.full_path()], depends: %s)" % (me, ref(p), ref(p)))
+                       "'@INPUT@', '@OUTPUT@', %s.full_path()], depends: %s)" % (me, dep, dep))
             out.append("%s = gend_%s.process('%s.in', '%s_b.in', '%s_c.in')" % (me, me, me, me, me))
         elif n.kind == 'G':
             files[d + me + '.in'] = gen_src_prelude(i) + 'int f%s(void) { return %d; }\n' % (me, value(i))
@@ -491,7 +519,18 @@ def render(spec: Spec, placement: str = 'root', odd_names: bool = False, with_te
             else:
                 body += 'int main(void) { return (%s) == %d ? 0 : 1; }\n' % (expr, value(i))
                 fn = 'executable'
-            files[d + me + '.c'] = body
+            if own_src:
+                files[d + me + '.c.in'] = body
+                if own_src == 'own_ct':
+                    out.append("%s_own = custom_target('%s_own', input: '%s.c.in', output: '%s.c', command: [cp, '@INPUT@', '@OUTPUT@'])" % (me, me, me, me))
+                else:
+                    if not gen_declared.get(loc + ':own'):
+                        out.append("genown_%s = generator(cp, output: '@BASENAME@', arguments: ['@INPUT@', '@OUTPUT@'])" % loc)
+                        gen_declared[loc + ':own'] = True
+                    out.append("%s_own = genown_%s.process('%s.c.in')" % (me, loc, me))
+                srcs[0] = '%s_own' % me
+            else:
+                files[d + me + '.c'] = body
             kws = ''.join(', %s: [%s]' % (k, ', '.join(v)) for k, v in kw.items())
             if pch_incs:
                 files[d + 'pch/' + me + '_pch.h'] = ''.join(pch_incs)
